@@ -12,10 +12,10 @@ BINS = ["x_core", "x_names"]
 RULE = ("every unit of the 14 catalogue quantities in both back-ends and of the 4 astronomical quantities (f64), each against the "
         "hand-written definition table (tables/build_catalogue.py: published definitions chained to the reference unit, evaluated in exact "
         "rationals): name, symbol, SI prefix, scale (terminating definitions: exactly the decimal / its correctly rounded double; "
-        "non-terminating: within 2^-50 relative), prefix consistency (scales of two prefixed units differ by exactly 10^(exponent difference)), "
+        "non-terminating: within 2^-51 relative = 2 ulp of f64), prefix consistency (scales of two prefixed units differ by exactly 10^(exponent difference)), "
         "reference unit scale one, set equality with the table; exhaustive; cell = (backend,type,unit,attribute); every cell is non-trivial")
 EXHAUSTIVE = True
-NONTERM_REL = Fraction(1, 2 ** 50)
+NONTERM_REL = Fraction(1, 2 ** 51)     # 2 ulp of f64; the hand-computed astronomical literals are within 1.32 ulp
 
 
 def plan(env, tier, seed):
